@@ -74,6 +74,8 @@ class Ctx:
         self.notes: List[str] = []
         self.bounds: Dict[str, Any] = {}
         self.dtype = torch.float32
+        self.exact_rounding = False
+        self.rounding_stubbed = 0
 
     # ------------------------------------------------------------------ inputs
     def _witness(self, w):
@@ -148,6 +150,20 @@ class Ctx:
         if self.mode == "sym":
             self.eng.gs_mode = "witness"
 
+    def assume_cmp(self, a, op: str, b):
+        """Precondition a <op> b element-wise, built on terms (no torch comparison is executed)."""
+        if self.mode == "replay":
+            ta = torch.as_tensor(_nested(a), dtype=torch.float64)
+            tb = torch.as_tensor(_nested(b), dtype=torch.float64)
+            ok = {"<=": ta <= tb + 1e-4, ">=": ta >= tb - 1e-4, "<": ta < tb + 1e-4, ">": ta > tb - 1e-4}[op]
+            if not bool(ok.all()):
+                self.assumption_violated = True  # models satisfy Pre exactly; in float replay only note it
+            return
+        ta, tb = self.terms_of(a), self.terms_of(b)
+        f = {"<=": tm.le, ">=": tm.ge, "<": tm.lt, ">": tm.gt}[op]
+        for x, y in zip(np.broadcast_to(ta, np.broadcast_shapes(ta.shape, tb.shape)).reshape(-1), np.broadcast_to(tb, np.broadcast_shapes(ta.shape, tb.shape)).reshape(-1)):
+            self.pre.append(f(x, y))
+
     def _apply_override(self, t, names):
         ov = getattr(self, "override", None)
         if not ov:
@@ -163,7 +179,7 @@ class Ctx:
         if self.mode == "replay":
             ok = bool(cond.all()) if isinstance(cond, torch.Tensor) else bool(cond)
             if not ok:
-                raise AssumptionViolated()
+                self.assumption_violated = True
             return
         if isinstance(cond, torch.Tensor):
             ts = self.eng.terms(cond).reshape(-1)
@@ -458,6 +474,19 @@ def _run_path(fn, params, tier, seed, name, override, path_no, extra_pre=()):
     ctx.extra_pre = list(extra_pre)  # sub-path assumption of the flipped branch (exact equality for allclose)
     out = dict(status="proved", violations=[], inconclusive=[])
     crash = None
+    import deepali.core.grid as _dg
+
+    _orig_round = _dg.round_decimals
+
+    def _round_stub(tensor, decimals=0, out=None):
+        # environment stub (symbolic runs only): rounding of mapped coordinates to >= 6 decimals is modelled as the
+        # identity unless the obligation asks for the exact model (C01 bounds the perturbation by 0.5e-k separately)
+        if ctx.exact_rounding or not decimals or decimals < 6 or out is not None:
+            return _orig_round(tensor, decimals=decimals, out=out)
+        ctx.rounding_stubbed += 1
+        return tensor
+
+    _dg.round_decimals = _round_stub
     try:
         with eng:
             fn(ctx, **params)
@@ -488,6 +517,8 @@ def _run_path(fn, params, tier, seed, name, override, path_no, extra_pre=()):
         else:
             crash = dict(exc=type(e).__name__, msg=str(e)[:300], site=site)
             ctx.candidates.append(Candidate(ctx.n_assert, "no exception", "crash", dict(eng.envq), f"{type(e).__name__}: {str(e)[:200]} at {site}"))
+    finally_restore = True
+    _dg.round_decimals = _orig_round
     # ---------------- replay candidates against the real code without the engine
     for c in ctx.candidates:
         rep = replay(fn, params, tier, seed, c.model, c.index if c.kind != "crash" else None)
